@@ -99,7 +99,12 @@ deriving Repr
 /-- the scan of read_cgsmiles.py:155-194 over `pattern[stop:]`.
     state: index, `ring_marker` text, `multi_ring`, `ring_bond_order`, occurrences so far -/
 def ringScanAux : Str → Nat → Str → Bool → Nat → List RingOcc → Py RingScan
-  | [], i, _, _, _, acc => pure ⟨acc, if i == 0 then none else some (i - 1)⟩
+  | [], i, marker, multi, rbo, acc =>
+    -- the loop is over; a `%nn` marker that ends the pattern is registered now
+    if multi then do
+      let m ← pyIntLit (marker.drop 1)
+      pure ⟨acc ++ [(m, rbo)], if i == 0 then none else some (i - 1)⟩
+    else pure ⟨acc, if i == 0 then none else some (i - 1)⟩
   | tok :: rest, i, marker, multi, rbo, acc => do
     -- closing a `%nn` marker when a non-digit follows
     let (marker, multi, rbo, acc) ←
